@@ -113,13 +113,37 @@ def physical_name_rule(ctx, rid, only_harvester=False):
     saves = [c for n, c, nm in all_calls(ctx, sm) if nm == MAN + ".save_ds"]
     loads = [c for n, c, nm in all_calls(ctx, sm) if nm == MAN + ".load_ds"]
     need(saves and loads, "anchor lost: save_merge_ds load / save")
-    explicit = arg(saves[0], None, "engine") is not None
-    if (muts or dels) and not explicit:
+    explicit = arg(saves[0], None, "engine")
+    splat = [k for k in saves[0].keywords if k.arg is None and norm(k.value) == "kwargs"]
+    e_load = arg(loads[0], None, "engine")
+    src = e_load
+    if isinstance(e_load, ast.Name):
+        d = single_def(sm, e_load.id)
+        src = d[1] if d and d[1] is not None else e_load
+    if (muts or dels) and explicit is None:
         rr.bad(ctx.finding(rid, sm, (muts + dels)[0], "save_merge_ds removes `engine` from kwargs before forwarding them to save_ds: the merged dataset is written with the default engine, to another file than the one it was loaded from", construct="engine-dropped"), "save_merge engine kept")
-    elif arg(loads[0], None, "engine") is None:
+    elif e_load is None:
         rr.bad(ctx.finding(rid, sm, loads[0], "save_merge_ds loads the existing file without the caller's engine", construct="load-no-engine"), "save_merge load engine")
+    elif isinstance(src, ast.Name) and src.id in sm.params:
+        # the engine is a named parameter: it is not part of **kwargs any more and must be forwarded explicitly
+        if explicit is not None and norm(explicit) == src.id:
+            rr.ok("save_merge_ds loads and saves with its `%s` parameter" % src.id)
+        else:
+            rr.bad(ctx.finding(rid, sm, saves[0], "save_merge_ds loads the existing file with its `%s` parameter but `%s` does not pass it on (a named parameter is no longer part of **kwargs): the merged dataset is written with save_ds's default engine, "
+                               "into another file (or format) than the one that was loaded" % (src.id, norm(saves[0])[:50]), construct="engine-not-forwarded"), "save_merge engine forwarded")
+    elif isinstance(src, ast.Call) and norm(src.func) == "kwargs.get" and src.args and isinstance(src.args[0], ast.Constant) and src.args[0].value == "engine":
+        sd = prog.need_func(MAN + ".save_ds")
+        dflt = sd.defaults().get("engine")
+        same_default = len(src.args) == 2 and dflt is not None and norm(src.args[1]) == norm(dflt)
+        if (splat or (explicit is not None and norm(explicit) == norm(e_load))) and same_default:
+            rr.ok("save_merge_ds loads and saves with the same engine (kwargs['engine'], default %s = save_ds's default)" % norm(dflt))
+        elif not same_default:
+            rr.bad(ctx.finding(rid, sm, src, "save_merge_ds falls back to engine %s when none is given, save_ds to %s: the file is loaded with one engine and saved with another" % (norm(src.args[1]) if len(src.args) == 2 else None, norm(dflt) if dflt is not None else None),
+                               construct="engine-default-mismatch"), "save_merge default engine")
+        else:
+            rr.bad(ctx.finding(rid, sm, saves[0], "save_merge_ds does not forward the caller's engine to save_ds", construct="engine-not-forwarded"), "save_merge engine forwarded")
     else:
-        rr.ok("save_merge_ds loads and saves with the same engine")
+        raise AnalysisError("idiom changed: engine used by save_merge_ds to load (`%s`)" % norm(src))
     return rr
 
 
@@ -312,7 +336,7 @@ def sync_order_rule(ctx, rid, cls="Harvester"):
 
 
 def through_save_rule(ctx, rid):
-    rr = ctx.rule(rid, "expand_dims / drop_sel persist through save_full_ds when a data name is set", floor=2)
+    rr = ctx.rule(rid, "expand_dims / drop_sel: with a data name the file is reloaded first and the result persisted through save_full_ds", floor=4)
     prog = ctx.prog
     for mname in ("expand_dims", "drop_sel"):
         f = prog.need_func(FARM + ".Harvester." + mname)
@@ -324,6 +348,17 @@ def through_save_rule(ctx, rid):
             rr.ok("%s saves the new dataset through save_full_ds" % mname)
         else:
             rr.bad(ctx.finding(rid, f, f.node, "%s does not persist its result through save_full_ds(new_ds) when a data name is set" % mname, construct="no-save " + mname), "%s saves" % mname)
+        # the saved dataset replaces the file: it must be derived from the file's current content, not from a possibly
+        # stale in-memory copy (another session may have harvested in between)
+        fl2 = Flow(g, {"self.data_name": NOTNONE, "self._full_ds": NOTNONE}).run()
+        derive = [n for n in g.nodes if n.id in fl2.visited and n.kind == "stmt" and isinstance(n.ast, ast.Assign) and ("self.full_ds" in norm(n.ast.value) or "self._full_ds" in norm(n.ast.value))]
+        need(derive, "idiom changed: %s does not derive the new dataset from the accumulated one" % mname)
+        loads = [n for n, c, nm in all_calls(ctx, f, g) if nm == FARM + ".Harvester.load_full_ds" and n.id in fl2.visited]
+        if loads and all(any(g.completes_before(L.id, D.id, feasible=fl2.feasible) for L in loads) for D in derive):
+            rr.ok("%s reloads the on-disk dataset before deriving the dataset it saves" % mname)
+        else:
+            rr.bad(ctx.finding(rid, f, derive[0].ast, "%s derives the dataset it saves from the in-memory copy (`%s`, which reloads only when memory is empty) without reloading the file first: "
+                               "points another harvester saved under the same data name since this object last synced are dropped from the file" % (mname, norm(derive[0].ast.value)[:50]), construct="stale-memory " + mname), "%s reloads" % mname)
     return rr
 
 
@@ -498,4 +533,47 @@ def unsynced_rule(ctx, rid, cls="Harvester"):
     else:
         rr.bad(ctx.finding(rid, f, loads[0][1], "%s(sync=True) calls %s, which replaces `self.%s` by the file's content (`%s`), while a previous %s(sync=False) may have left data in memory that was never saved: "
                            "those points are dropped from memory and never reach the file" % (mname, lname, attr, norm(lstores[0])[:70], mname), construct="reload-drops-unsynced"), "reload keeps unsynced data")
+    return rr
+
+
+def loader_errors_rule(ctx, rid, cls="Harvester"):
+    """C05.R7 / C15.R9: the loader of the accumulated data treats only an
+    absent file as 'nothing harvested yet'.  A failure of the load itself
+    (lock, I/O error, corrupt file) must reach the caller: if it can be caught
+    and the method returns normally, the next save replaces the file with the
+    new points only."""
+    lname, loader = {"Harvester": ("load_full_ds", MAN + ".load_ds"), "Sampler": ("load_full_df", MAN + ".load_df")}[cls]
+    rr = ctx.rule(rid, "%s.%s: a failing load of the existing file propagates (only an absent file means 'no data yet')" % (cls, lname), floor=1)
+    f = ctx.prog.need_func("%s.%s.%s" % (FARM, cls, lname))
+    g = build_cfg(f.node)
+    ctx.touch(f, g)
+    calls = [(n, c) for n, c, nm in all_calls(ctx, f, g) if nm == loader]
+    need(calls, "anchor lost: %s does not call %s" % (lname, loader))
+    for n, c in calls:
+        swallowed = None
+        for t, l in g.succ[n.id]:
+            if l == "exc" and (t == g.exit.id or g.exit.id in g.reachable(start=t)):
+                swallowed = t
+        if swallowed is None:
+            rr.ok("%s: a failure of `%s` propagates" % (lname, norm(c)[:50]))
+            continue
+        # which exception types does the handler take?
+        handlers = [h for tr in ast.walk(f.node) if isinstance(tr, ast.Try) and any(c is x for b in tr.body for x in ast.walk(b)) for h in tr.handlers]
+        narrow = handlers and all(h.type is not None and norm(h.type) in ("FileNotFoundError",) for h in handlers)
+        if narrow:
+            rr.ok("%s: only FileNotFoundError of `%s` is taken as 'no data yet'" % (lname, norm(c)[:40]))
+        else:
+            rr.bad(ctx.finding(rid, f, c, "a failure of `%s` is caught (%s) and %s returns normally as if no file existed: after a transient read error (lock, I/O error, too many open files) the next synced save replaces the file with the new points only, "
+                               "dropping everything harvested before" % (norm(c)[:50], ", ".join(norm(h.type) if h.type is not None else "bare except" for h in handlers) or "handler", lname), construct="load-error-swallowed"), "%s load errors" % lname)
+    # the loader only ever replaces the in-memory data by what it loaded
+    attr = {"Harvester": "_full_ds", "Sampler": "_full_df"}[cls]
+    for st in ast.walk(f.node):
+        if isinstance(st, ast.Assign) and any(path_key(t) == "self." + attr for t in st.targets):
+            if any(isinstance(x, ast.Call) and callee_name(ctx, f, x) == loader for x in ast.walk(st.value)):
+                rr.ok("%s stores the loaded data" % lname)
+            elif isinstance(st.value, ast.Constant) or norm(st.value) in ("xr.Dataset()", "pd.DataFrame()", "xarray.Dataset()", "pandas.DataFrame()"):
+                rr.bad(ctx.finding(rid, f, st, "%s replaces the in-memory data by `%s` when there is nothing to load: data held in memory (given to the constructor, or added before a data name was set or after the file was deleted) is dropped, "
+                                   "and the next synced save writes only the new points" % (lname, norm(st.value)), construct="loader-wipes-memory"), "%s keeps memory" % lname)
+            else:
+                raise AnalysisError("idiom changed: %s stores `%s` in %s" % (lname, norm(st.value)[:60], attr))
     return rr
